@@ -82,9 +82,48 @@ static int vec_extensions(const unsigned char *r, int o, int end, vecf_t *v, int
     }
     return nv;
 }
+static int vec_tls13;   /* 1: the message is a TLS 1.3 message from a protected flight (part T): types 4, 11, 13 have the TLS 1.3 layout, 8 exists */
 static int vec_find(const unsigned char *r, const hmsg_t *m, int dtls, vecf_t *v, int max)
 {
     int nv = 0, o = m->boff, end = m->boff + m->blen, e;
+    if (vec_tls13)
+    {
+        switch (m->type)
+        {
+        case 8: /* EncryptedExtensions */
+            return vec_extensions(r, o, end, v, nv, max);
+        case 13: /* CertificateRequest: context<1> extensions<2> */
+            if ((e = vfit(r, o, 1, end)) < 0) return nv;
+            VADD(o, 1);
+            return vec_extensions(r, e, end, v, nv, max);
+        case 11: /* Certificate: context<1> list<3>{ cert<3> extensions<2> } */
+            if ((e = vfit(r, o, 1, end)) < 0) return nv;
+            VADD(o, 1); o = e;
+            if ((e = vfit(r, o, 3, end)) < 0) return nv;
+            VADD(o, 3); o += 3;
+            while (o + 3 <= e)
+            {
+                int ce = vfit(r, o, 3, e), xe;
+                if (ce < 0) break;
+                VADD(o, 3);
+                if ((xe = vfit(r, ce, 2, e)) < 0) break;
+                VADD(ce, 2);
+                o = xe;
+            }
+            return nv;
+        case 4: /* NewSessionTicket: lifetime(4) age_add(4) nonce<1> ticket<2> extensions<2> */
+            if ((e = vfit(r, o + 8, 1, end)) < 0) return nv;
+            VADD(o + 8, 1); o = e;
+            if ((e = vfit(r, o, 2, end)) < 0) return nv;
+            VADD(o, 2);
+            return vec_extensions(r, e, end, v, nv, max);
+        case 15: /* CertificateVerify: algorithm(2) signature<2> */
+            if (vfit(r, o + 2, 2, end) == end) VADD(o + 2, 2);
+            return nv;
+        default:
+            return nv;
+        }
+    }
     switch (m->type)
     {
     case 1: /* ClientHello */
